@@ -28,7 +28,37 @@ T = {
            "copy-assignment onto a trajectory that has already been evaluated, then evaluating it again"),
  "S-C12": ("C12", "SplineOptimizer::calculateIntegralCost: segment start times accumulated inside the per-segment callable through a shared running_time",
            "an executor that does not run the indices in ascending order on one thread, and a running cost that depends on global time"),
- "S-C13": ("C13", "", ""), "S-C14": ("C14", "", ""), "S-C15": ("C15", "", ""), "S-C16": ("C16", "", ""), "S-C17": ("C17", "", ""), "S-C19": ("C19", "", ""), "S-C20": ("C20", "", ""),
+ "S-C13": ("C13", "SepticSplineND::propagateGradInternal (DIM > 3 arm): waypoint differences hoisted into locals, one right-hand-side row gets the wrong sign",
+           "septic spline, DIM >= 4, N >= 2, duration component of propagateGrad"),
+ "S-C14": ("C14", "QuinticSplineND::updateCumulativeTimes rewritten with std::partial_sum: the start time reaches knot 0 only",
+           "quintic spline with a non-zero start time"),
+ "S-C15": ("C15", "SplineOptimizer::operator=: the default-time-map test compares with the destination's own default map, so the copy keeps pointing at the source's",
+           "copy assignment from a source that uses its default time map, a stateful TimeMap type, then the source is modified or destroyed"),
+ "S-C16": ("C16", "setInitState(time points): the empty-input branch reports the error through reportError and no longer clears the validity flag",
+           "time-point overload with an empty vector on an optimizer whose previous initialisation succeeded"),
+ "S-C17": ("C17", "QuadInvTimeMap::toTime clamps the duration from below at 1e-9",
+           "tau below about -4.5e4 (still inside |tau| <= 1e6)"),
+ "S-C19": ("C19", "checkGradients: the closing evaluation at x lost its workspace argument (runs on the built-in workspace)",
+           "checkGradients called with a caller-owned workspace whose spline is inspected afterwards"),
+ "S-C20": ("C20", "PPolyND::generateTimeSequence: the end-append tolerance became relative to |end_t|",
+           "large absolute end time with a last step short by between 1e-6 and 1e-6*|end_t|"),
+ "S2-C01": ("C01", "SepticSplineND: precomputeTimePowers reports whether the durations changed and the knot times are only recomputed then",
+            "septic spline object updated again with bit-identical durations and a different start time"),
+ "S2-C07": ("C07", "SplineOptimizer::evaluate: inner-waypoint gradients are mapped back with backwardGrad(..., point_index - 1)",
+            "user spatial map whose Jacobian depends on the waypoint index, N >= 2"),
+ "S2-C08": ("C08", "Workspace::resize reports re-allocation; evaluate copies the reference waypoints only then; the setters refresh the built-in workspace only",
+            "caller-owned workspace reused with equal N after a fixed end point changed"),
+ "S2-C09": ("C09", "SplineOptimizer::operator=: the layout is rebuilt (markLayoutDirty + ensureLayoutCache) before the active spatial map is re-bound",
+            "copy assignment between optimizers whose spatial-map instances give different per-point dimensions"),
+ "S2-C10": ("C10", "Workspace remembers the last decision vector; evaluate skips spline.update when x is bit-identical",
+            "same workspace, same N, identical x, something outside x changed (end point, start time, maps, other optimizer)"),
+ "S2-C12": ("C12", "copy constructor / assignment no longer copy the cached layout: the copy starts with a dirty layout cache",
+            "a copied optimizer whose first evaluate() calls come from several threads"),
+ "S2-C15": ("C15", "SplineOptimizer::operator=: the layout is rebuilt before the active spatial map is re-bound",
+            "copy assignment between optimizers whose spatial-map instances give different per-point dimensions"),
+ "S2-C16": ("C16", "PPolyND::update fast path: same breakpoint count and order => data copied without the coefficient-row check",
+            "an initialised PPolyND updated with the same layout but the wrong number of coefficient rows"),
+ "S2-C11": ("C11", "", ""),
 }
 EXTRA = os.path.join(V, "seeded", "extra_meta.json")
 if os.path.exists(EXTRA):
